@@ -18,9 +18,10 @@ MAX_DOC_LINES = 120
 
 
 def gen_session_case(prop: str, seed: int, tier: str, *, profile: str = "edit", scoped_bias: float = 0.15,
-                     fail: bool | None = None) -> dict:
+                     fail: bool | None = None, multiline_boost: bool = False) -> dict:
     st = Streams(seed)
     cfg = gen.swarm(st("swarm"), tier, profile=profile)
+    cfg["multiline_boost"] = multiline_boost
     # VALUE arguments that carry an end-of-line comment: only where refusal / validity is the question
     cfg["commented_values"] = prop in ("C05", "C08")
     if fail is True:
